@@ -110,8 +110,10 @@ func (s *factState) equal(o *factState) bool {
 type FuncFacts struct {
 	fn      *ssa.Function
 	in      map[*ssa.BasicBlock]*factState
-	at      map[ssa.Instruction]*factState // state just before each call / return / store instruction
+	at      map[ssa.Instruction]*factState   // state just before each call / return / store instruction
 	edgeIn  map[*ssa.BasicBlock][]*factState // per predecessor (same order as Preds): state carried by that edge
+	phiImpl map[*ssa.BasicBlock][]*factState // edge states of the first pass, used for flag implications
+	spillOf map[*ssa.Alloc]*ssa.Parameter    // value parameters spilled to a local that is never written again
 	ids     map[ssa.Value]int
 	escaped map[*ssa.Alloc]bool
 	pure    func(*ssa.Function) bool
@@ -221,6 +223,11 @@ func (ff *FuncFacts) canon(s *factState, v ssa.Value) string {
 				}
 			case *ssa.FieldAddr:
 				key := a.X.Type().String() + "#" + fmt.Sprint(a.Field)
+				if al, ok := a.X.(*ssa.Alloc); ok {
+					if prm := ff.spillOf[al]; prm != nil {
+						return "param:" + prm.Name() + "." + fieldName(a.X.Type(), a.Field)
+					}
+				}
 				if !ff.fieldStored[key] {
 					switch a.X.(type) {
 					case *ssa.Parameter, *ssa.FreeVar:
@@ -270,6 +277,14 @@ func (ff *FuncFacts) assume(s *factState, cond ssa.Value, b bool) {
 		}
 	}
 	switch x := cond.(type) {
+	case *ssa.Phi:
+		if ff.phiImpl != nil && x.Type().String() == "bool" {
+			if common, ok := ff.flagImplies(x, b, map[*ssa.Phi]bool{}); ok {
+				for f := range common {
+					s.facts[f] = true
+				}
+			}
+		}
 	case *ssa.UnOp:
 		if x.Op == token.NOT {
 			ff.assume(s, x.X, !b)
@@ -360,7 +375,18 @@ func (ff *FuncFacts) step(s *factState, ins ssa.Instruction) {
 	}
 }
 
+var factsCache = map[*ssa.Function]*FuncFacts{}
+
 func computeFacts(fn *ssa.Function) *FuncFacts {
+	if ff, ok := factsCache[fn]; ok {
+		return ff
+	}
+	ff := computeFactsUncached(fn)
+	factsCache[fn] = ff
+	return ff
+}
+
+func computeFactsUncached(fn *ssa.Function) *FuncFacts {
 	ff := &FuncFacts{fn: fn, in: map[*ssa.BasicBlock]*factState{}, at: map[ssa.Instruction]*factState{}, ids: map[ssa.Value]int{}, escaped: map[*ssa.Alloc]bool{}, fieldStored: map[string]bool{}}
 	if len(fn.Blocks) == 0 {
 		return ff
@@ -396,127 +422,172 @@ func computeFacts(fn *ssa.Function) *FuncFacts {
 			}
 		}
 	}
-	ff.in[fn.Blocks[0]] = newFactState()
-	work := []*ssa.BasicBlock{fn.Blocks[0]}
-	if fn.Recover != nil {
-		ff.in[fn.Recover] = newFactState()
-		work = append(work, fn.Recover)
-	}
-	n := 0
-	for len(work) > 0 {
-		n++
-		if n > 200000 {
-			panic("facts: no fixpoint in " + fn.String())
-		}
-		b := work[0]
-		work = work[1:]
-		s := ff.in[b].clone()
+	// value parameters spilled to memory (address taken) and never written again
+	ff.spillOf = map[*ssa.Alloc]*ssa.Parameter{}
+	for _, b := range fn.Blocks {
 		for _, ins := range b.Instrs {
-			ff.step(s, ins)
+			a, ok := ins.(*ssa.Alloc)
+			if !ok {
+				continue
+			}
+			var prm *ssa.Parameter
+			okSpill := true
+			nStore := 0
+			for _, r := range *a.Referrers() {
+				switch u := r.(type) {
+				case *ssa.Store:
+					if u.Addr == ssa.Value(a) {
+						nStore++
+						prm, _ = u.Val.(*ssa.Parameter)
+					} else {
+						okSpill = false
+					}
+				case *ssa.FieldAddr:
+					for _, r2 := range *u.Referrers() {
+						if st, ok := r2.(*ssa.Store); ok && st.Addr == ssa.Value(u) {
+							okSpill = false
+						}
+					}
+				case *ssa.UnOp, *ssa.DebugRef:
+				default:
+					okSpill = false // address passed on (e.g. pointer-receiver call)
+				}
+			}
+			if okSpill && nStore == 1 && prm != nil {
+				ff.spillOf[a] = prm
+			}
 		}
-		for si, succ := range b.Succs {
-			out := s.clone()
-			if ifi, ok := b.Instrs[len(b.Instrs)-1].(*ssa.If); ok {
-				ff.assume(out, ifi.Cond, si == 0)
-				if contradictory(out) {
-					continue // the edge contradicts what is known on every path reaching it: infeasible
-				}
+	}
+	for pass := 0; pass < 2; pass++ {
+		if pass == 1 {
+			// second pass: a boolean flag merged from constants implies, when tested,
+			// the facts of the edges on which it got that value (taken from pass one)
+			ff.phiImpl = ff.edgeIn
+			ff.in = map[*ssa.BasicBlock]*factState{}
+			ff.at = map[ssa.Instruction]*factState{}
+		}
+		ff.in[fn.Blocks[0]] = newFactState()
+		work := []*ssa.BasicBlock{fn.Blocks[0]}
+		if fn.Recover != nil {
+			ff.in[fn.Recover] = newFactState()
+			work = append(work, fn.Recover)
+		}
+		n := 0
+		for len(work) > 0 {
+			n++
+			if n > 200000 {
+				panic("facts: no fixpoint in " + fn.String())
 			}
-			// phi transfer: facts of the incoming value become facts of the phi
-			pi := -1
-			for i, p := range succ.Preds {
-				if p == b {
-					pi = i
-				}
+			b := work[0]
+			work = work[1:]
+			s := ff.in[b].clone()
+			for _, ins := range b.Instrs {
+				ff.step(s, ins)
 			}
-			for _, ins := range succ.Instrs {
-				phi, ok := ins.(*ssa.Phi)
-				if !ok {
-					break
-				}
-				pn := ff.canon(out, phi)
-				for f := range out.facts {
-					if f.v == pn {
-						delete(out.facts, f)
+			for si, succ := range b.Succs {
+				out := s.clone()
+				if ifi, ok := b.Instrs[len(b.Instrs)-1].(*ssa.If); ok {
+					ff.assume(out, ifi.Cond, si == 0)
+					if contradictory(out) {
+						continue // the edge contradicts what is known on every path reaching it: infeasible
 					}
 				}
-				if pi >= 0 {
-					en := ff.canon(out, phi.Edges[pi])
-					if en == "nil" {
-						out.facts[fact{pn, fNIL, ""}] = true
-					} else if c, ok := phi.Edges[pi].(*ssa.Const); ok && c.Value != nil {
-						if c.Value.Kind() == constant.Bool {
-							if constant.BoolVal(c.Value) {
-								out.facts[fact{pn, fTRUE, ""}] = true
+				// phi transfer: facts of the incoming value become facts of the phi
+				pi := -1
+				for i, p := range succ.Preds {
+					if p == b {
+						pi = i
+					}
+				}
+				for _, ins := range succ.Instrs {
+					phi, ok := ins.(*ssa.Phi)
+					if !ok {
+						break
+					}
+					pn := ff.canon(out, phi)
+					for f := range out.facts {
+						if f.v == pn {
+							delete(out.facts, f)
+						}
+					}
+					if pi >= 0 {
+						en := ff.canon(out, phi.Edges[pi])
+						if en == "nil" {
+							out.facts[fact{pn, fNIL, ""}] = true
+						} else if c, ok := phi.Edges[pi].(*ssa.Const); ok && c.Value != nil {
+							if c.Value.Kind() == constant.Bool {
+								if constant.BoolVal(c.Value) {
+									out.facts[fact{pn, fTRUE, ""}] = true
+								} else {
+									out.facts[fact{pn, fFALSE, ""}] = true
+								}
 							} else {
-								out.facts[fact{pn, fFALSE, ""}] = true
+								out.facts[fact{pn, fEQ, "const:" + constString(c)}] = true
 							}
 						} else {
-							out.facts[fact{pn, fEQ, "const:" + constString(c)}] = true
-						}
-					} else {
-						for f := range out.facts {
-							if f.v == en {
-								out.facts[fact{pn, f.k, f.c}] = true
+							for f := range out.facts {
+								if f.v == en {
+									out.facts[fact{pn, f.k, f.c}] = true
+								}
 							}
 						}
 					}
 				}
-			}
-			if old, ok := ff.in[succ]; ok {
-				m := meetFacts(old, out)
-				if !m.equal(old) {
-					ff.in[succ] = m
+				if old, ok := ff.in[succ]; ok {
+					m := meetFacts(old, out)
+					if !m.equal(old) {
+						ff.in[succ] = m
+						work = append(work, succ)
+					}
+				} else {
+					ff.in[succ] = out
 					work = append(work, succ)
 				}
-			} else {
-				ff.in[succ] = out
-				work = append(work, succ)
 			}
 		}
-	}
-	// per-edge states (after the branch assumption and phi transfer), for disjunctive queries
-	ff.edgeIn = map[*ssa.BasicBlock][]*factState{}
-	for _, b := range fn.Blocks {
-		st, ok := ff.in[b]
-		if !ok {
-			continue
-		}
-		s := st.clone()
-		for _, ins := range b.Instrs {
-			ff.step(s, ins)
-		}
-		for si, succ := range b.Succs {
-			out := s.clone()
-			if ifi, ok := b.Instrs[len(b.Instrs)-1].(*ssa.If); ok {
-				ff.assume(out, ifi.Cond, si == 0)
+		// per-edge states (after the branch assumption and phi transfer), for disjunctive queries
+		ff.edgeIn = map[*ssa.BasicBlock][]*factState{}
+		for _, b := range fn.Blocks {
+			st, ok := ff.in[b]
+			if !ok {
+				continue
 			}
-			if ff.edgeIn[succ] == nil {
-				ff.edgeIn[succ] = make([]*factState, len(succ.Preds))
+			s := st.clone()
+			for _, ins := range b.Instrs {
+				ff.step(s, ins)
 			}
-			for i, p := range succ.Preds {
-				if p == b && ff.edgeIn[succ][i] == nil {
-					ff.edgeIn[succ][i] = out
-					break
+			for si, succ := range b.Succs {
+				out := s.clone()
+				if ifi, ok := b.Instrs[len(b.Instrs)-1].(*ssa.If); ok {
+					ff.assume(out, ifi.Cond, si == 0)
+				}
+				if ff.edgeIn[succ] == nil {
+					ff.edgeIn[succ] = make([]*factState, len(succ.Preds))
+				}
+				for i, p := range succ.Preds {
+					if p == b && ff.edgeIn[succ][i] == nil {
+						ff.edgeIn[succ][i] = out
+						break
+					}
 				}
 			}
 		}
-	}
-	// record the state before every instruction of interest
-	for _, b := range fn.Blocks {
-		st, ok := ff.in[b]
-		if !ok {
-			continue
-		}
-		s := st.clone()
-		for _, ins := range b.Instrs {
-			switch ins.(type) {
-			case ssa.CallInstruction, *ssa.Return, *ssa.Store, *ssa.MapUpdate, *ssa.If, *ssa.Send:
-				ff.at[ins] = s.clone()
+		// record the state before every instruction of interest
+		for _, b := range fn.Blocks {
+			st, ok := ff.in[b]
+			if !ok {
+				continue
 			}
-			ff.step(s, ins)
+			s := st.clone()
+			for _, ins := range b.Instrs {
+				switch ins.(type) {
+				case ssa.CallInstruction, *ssa.Return, *ssa.Store, *ssa.MapUpdate, *ssa.If, *ssa.Send:
+					ff.at[ins] = s.clone()
+				}
+				ff.step(s, ins)
+			}
 		}
-	}
+	} // pass
 	return ff
 }
 
@@ -766,4 +837,66 @@ func contradictory(s *factState) bool {
 		}
 	}
 	return false
+}
+
+// flagImplies: the facts that hold whenever the boolean flag x (a phi of
+// constants, possibly through further phis) has value b: the intersection,
+// over the edges on which it can receive that value, of the facts carried by
+// those edges in the first pass. ok=false when some edge carries a computed
+// value (nothing can be said).
+func (ff *FuncFacts) flagImplies(x *ssa.Phi, b bool, seen map[*ssa.Phi]bool) (map[fact]bool, bool) {
+	seen[x] = true
+	es := ff.phiImpl[x.Block()]
+	if len(es) != len(x.Edges) {
+		return nil, false
+	}
+	var common map[fact]bool
+	meet := func(m map[fact]bool) {
+		if common == nil {
+			common = map[fact]bool{}
+			for f := range m {
+				common[f] = true
+			}
+			return
+		}
+		for f := range common {
+			if !m[f] {
+				delete(common, f)
+			}
+		}
+	}
+	for i, e := range x.Edges {
+		if es[i] == nil {
+			continue // edge from an unreachable block
+		}
+		if v, isC := boolConst(e); isC {
+			if v == b {
+				meet(es[i].facts)
+			}
+			continue
+		}
+		if ph, ok := e.(*ssa.Phi); ok {
+			if seen[ph] {
+				continue // the flag keeps its value round a loop
+			}
+			sub, ok := ff.flagImplies(ph, b, seen)
+			if !ok {
+				return nil, false
+			}
+			if sub == nil {
+				continue // the inner flag can never have this value
+			}
+			u := map[fact]bool{}
+			for f := range sub {
+				u[f] = true
+			}
+			for f := range es[i].facts {
+				u[f] = true
+			}
+			meet(u)
+			continue
+		}
+		return nil, false
+	}
+	return common, true
 }
